@@ -255,6 +255,33 @@ def mode_replay_cross(path: str, doc) -> int:
     return 0
 
 
+def mode_replaymany(paths) -> int:
+    """replay several scenario files that share one hash seed in a single interpreter: one JSON line per file"""
+    docs = []
+    for pth in paths:
+        with open(pth) as f:
+            docs.append((pth, json.load(f)))
+    hs = {d["scenario"]["hashseed"] for _, d in docs}
+    if len(hs) != 1:
+        print(json.dumps({"verdict": "harness-error", "trace": f"replaymany needs one hash seed, got {sorted(hs)}"}))
+        return 2
+    ensure_env(hs.pop())
+    faulthandler.enable()
+    faulthandler.dump_traceback_later(900, exit=True)
+    rc = 0
+    for pth, doc in docs:
+        scn = doc["scenario"]
+        mod = load_prop(scn["prop"])
+        try:
+            res = execute_guarded(mod, scn)
+        except Exception:
+            print(json.dumps({"path": pth, "verdict": "harness-error", "trace": traceback.format_exc()[-1500:]}))
+            rc = 2
+            continue
+        print(json.dumps({"path": pth, "verdict": res["verdict"], "sig": res.get("sig"), "log": res["log"]}))
+    return rc
+
+
 def main(argv) -> int:
     if len(argv) < 2:
         print(__doc__)
@@ -266,6 +293,8 @@ def main(argv) -> int:
         return mode_minimise(argv[2], argv[3])
     if mode == "replay":
         return mode_replay(argv[2], "--events" in argv[3:])
+    if mode == "replaymany":
+        return mode_replaymany(argv[2:])
     print(__doc__)
     return 2
 
